@@ -660,6 +660,67 @@ func checkC01(c *Ctx) {
 
 	// ================= C01.6 the derivation depends on its inputs only (not on earlier selections / shared caches)
 	checkSelectionPurity(c, "C01.6", "pkg/phantoms")
+	// ---- C01.8 the station selects from the client's own list: the subnets of a generation are used in the order they
+	// are configured (the address id is mapped onto them in list order) and only the requested generation's entry is
+	// used (a neighbouring generation's list is a different list)
+	r.Rule("C01.8", "configured subnet order is kept (only the reviewed weight sort); a generation resolves to its own entry only", 2)
+	{
+		var sorts []string
+		okSort := true
+		var pos token.Pos
+		nf := 0
+		for _, f := range c.funcsOfPkgs("pkg/phantoms") {
+			if strings.Contains(r.posStr(f.Pos()), "_test") {
+				continue
+			}
+			nf++
+			eachInstr(f, func(in ssa.Instruction) {
+				ci, ok := in.(ssa.CallInstruction)
+				if !ok {
+					return
+				}
+				n := calleeName(ci.Common())
+				if (!strings.HasPrefix(n, "sort.") && !strings.HasPrefix(n, "slices.Sort") && n != "slices.Reverse") || n == "sort.init" || n == "slices.init" {
+					return
+				}
+				encl := f
+				for encl.Parent() != nil {
+					encl = encl.Parent()
+				}
+				site := encl.Name() + ": " + n
+				sorts = append(sorts, site)
+				if !(encl.Name() == "getSubnetsHkdf" && n == "sort.Slice") {
+					okSort = false
+					pos = in.Pos()
+				}
+			})
+		}
+		sort.Strings(sorts)
+		r.Check(okSort && nf > 0, "C01.8", "pkg/phantoms: the only sort is the weight sort of getSubnetsHkdf", pos, "", fmt.Sprint(sorts),
+			"a list of the subnet configuration is re-ordered ("+fmt.Sprint(sorts)+"): the address id is mapped onto a group's subnets in list order, so a station that sorts (or otherwise canonicalises the order of) the configured CIDRs picks a different phantom than the client, which uses the ClientConf order")
+	}
+	if f := c.fn("C01.8", "pkg/phantoms", "PhantomIPSelector", "GetSubnetsByGeneration"); f != nil && len(f.Params) == 2 {
+		want := P(f, 0) + ".Networks[" + P(f, 1) + "]"
+		okk, n := true, 0
+		eachInstr(f, func(in ssa.Instruction) {
+			ret, ok := in.(*ssa.Return)
+			if !ok || len(ret.Results) != 1 || ret.Block().Comment == "recover" {
+				return
+			}
+			rv := returnedValue(ret, 0, nil)
+			if cst, isC := rv.(*ssa.Const); isC && cst.Value == nil {
+				return
+			}
+			n++
+			vp := pathOf(rv)
+			if !(strings.HasPrefix(vp, want) && guarded(f, ret, Atom{want + "#1", true})) {
+				okk = false
+			}
+		})
+		r.Check(okk && n > 0, "C01.8", "GetSubnetsByGeneration: returns the entry stored under the requested generation, only if present", f.Pos(), fnName(f), want+" under its found flag",
+			"a generation that has no entry of its own is answered from another entry (a fallback to a neighbouring or default generation): the station derives the phantom from a different list than the client of that generation uses, instead of rejecting the registration")
+	}
+
 	// ---- C01.7 the base the offset is added to is the masked network, as in every released client
 	r.Rule("C01.7", "subnets are net.ParseCIDR networks or built from masked addresses", 1)
 	checkMaskedBase(c, "C01.7", "pkg/phantoms")
